@@ -32,6 +32,24 @@ pub fn search_once(b: &Board, k: u64) -> Option<(Option<chess_movegen::ChessMove
     r.ok().map(|(m, s, d)| (m, s, d, t.polls.get()))
 }
 
+/// search with a repetition table in which the ROOT position already stands `reps` times (as after repetitions in the CLI / bot)
+pub fn line_tf(out: &mut dyn Write, b: &Board, k: u64, reps: u8) {
+    let t = CountingTimeout { k, polls: Cell::new(0) };
+    let r = catch_unwind(AssertUnwindSafe(|| {
+        let mut e = Engine::default();
+        let mut tf = ThreeFold::new();
+        for _ in 0..reps {
+            tf.add(*b);
+        }
+        let (mv, sc) = e.search(b, &tf, &t);
+        (mv, sc, e.max_depth)
+    }));
+    match r {
+        Ok((mv, sc, d)) => writeln!(out, "SH\t{}\t{k}\t{reps}\t{}\t{}\t{d}", xfen(b), mv.map(mv_str).unwrap_or("-".into()), enc(sc)).unwrap(),
+        Err(_) => writeln!(out, "SH\t{}\t{k}\t{reps}\tTRAP\t-\t0", xfen(b)).unwrap(),
+    }
+}
+
 pub fn line(out: &mut dyn Write, b: &Board, k: u64) {
     match search_once(b, k) {
         Some((mv, sc, d, polls)) => {
@@ -97,6 +115,9 @@ const MATE_IN_ONE: &[&str] = &[
     // the only mate in one: a pawn pinned on the diagonal captures its pinner on the last rank and promotes
     "7b/6P1/5K1k/8/6P1/8/8/8 w - - 0 1",
     "8/8/8/6p1/8/5k1K/6p1/7B b - - 0 1",
+    // half-move clock beyond 100 at the root (nothing stops a game there; the parser accepts any clock)
+    "4k3/8/8/8/8/8/8/R3K3 w - - 101 130",
+    "r3k3/8/8/8/8/8/8/4K3 b - - 150 130",
     // stalemate tricks and under-promotion mates
     "5k2/5P2/5K2/8/8/8/8/8 w - - 0 1",
     "7k/5P2/6K1/8/8/8/8/8 w - - 0 1",
@@ -135,6 +156,11 @@ pub fn run(out: &mut dyn Write, rng: &mut Rng, n: usize, k_max: u64) {
         }
     }
     positions(rng, n, |_r, b, _l, _| roots.push(*b));
+    // sparse random roots (kings + a few men, promotions / e.p. / castling rights available, clocks near 100): full of mates in one,
+    // forced captures, stalemates and dead positions that playouts from the opening never reach
+    for b in crate::chess::sparse_boards(rng, n / 2 + 1) {
+        roots.push(b);
+    }
     let mut terminal = 0;
     let mut mates1 = 0;
     for (i, b) in roots.iter().enumerate() {
@@ -157,6 +183,14 @@ pub fn run(out: &mut dyn Write, rng: &mut Rng, n: usize, k_max: u64) {
         };
         for k in ks {
             line(out, b, k);
+        }
+        // the root already stands 1..4 times in the caller's repetition table
+        if i % 5 == 0 {
+            for reps in [1u8, 2, 3, 4] {
+                for k in [0u64, l.len() as u64 + 2, 60] {
+                    line_tf(out, b, k, reps);
+                }
+            }
         }
         if l.is_empty() {
             // terminal roots: also far beyond the 16-bit depth counter
@@ -338,6 +372,12 @@ pub fn mirrors(out: &mut dyn Write, rng: &mut Rng, n: usize, k_max: u64) {
         mirror_line(out, b, k_max);
     });
     writeln!(out, "DIST\tmirror_pairs={cnt}\tmirror_skipped_root_promotion={skipped}").unwrap();
+}
+
+pub fn replay_sh(out: &mut dyn Write, f: &[&str]) {
+    if let Ok(b) = f[1].parse::<Board>() {
+        line_tf(out, &b, f[2].parse().unwrap_or(0), f[3].parse().unwrap_or(0));
+    }
 }
 
 pub fn replay(out: &mut dyn Write, f: &[&str]) {
